@@ -289,6 +289,70 @@ def daemon_start():
     return '["adopt:_load_services:asyncio", "accept"]'
 
 
+def pipeline_walk():
+    """core/config.py PipelineTranslator.translate_hierarchy: only the lookup `structure["pipeline"]` sits inside the
+    try (KeyError / TypeError there mean "not a pipeline section" and fall back to the plain translator); the walk goes
+    last to first; the last element is translated without target and constructed if it is still a template; every
+    other element is bound with `>>` if it has one, else translated with `target=<previous object>`; the result is in
+    configuration order"""
+    from cobald.daemon.core.config import PipelineTranslator
+    st = _fn_body(PipelineTranslator.translate_hierarchy)
+    if len(st) != 1 or not isinstance(st[0], ast.Try):
+        raise Untranslatable("translate_hierarchy is not one try statement")
+    tr = st[0]
+    if [ast.unparse(x) for x in tr.body] != ["pipeline = structure['pipeline']"] or tr.finalbody or len(tr.handlers) != 1 \
+            or _nz(ast.unparse(tr.handlers[0].type)) != "KeyError, TypeError" \
+            or [ast.unparse(x) for x in tr.handlers[0].body] != ["return super().translate_hierarchy(structure, where=where, **construct_kwargs)"]:
+        raise Untranslatable("the guarded part: %s / %s" % ([ast.unparse(x)[:50] for x in tr.body], [ast.unparse(x)[:50] for x in tr.handlers[0].body] if tr.handlers else None))
+    e = tr.orelse
+    if len(e) != 3 or _nz(ast.unparse(e[0])) != "prev_item, items = None, []" or ast.unparse(e[2]) != "return list(reversed(items))" or not isinstance(e[1], ast.For):
+        raise Untranslatable("walk frame: %s" % [ast.unparse(x)[:40] for x in e])
+    lp = e[1]
+    if _nz(ast.unparse(lp.target)) != "index, item" or ast.unparse(lp.iter) != "reversed(list(enumerate(pipeline)))" or lp.orelse or len(lp.body) != 3:
+        raise Untranslatable("walk loop: %s" % ast.unparse(lp)[:80])
+    br, asr, app = lp.body
+    if ast.unparse(asr) != "assert not isinstance(prev_item, Partial)" or ast.unparse(app) != "items.append(prev_item)":
+        raise Untranslatable("loop tail: %s" % [ast.unparse(asr)[:50], ast.unparse(app)[:50]])
+    want_some = ["if hasattr(item, '__rshift__'):\n    prev_item = item >> prev_item\nelse:\n    prev_item = self.translate_hierarchy(item, where='%s[%s]' % (where, index), target=prev_item)"]
+    want_none = ["prev_item = self.translate_hierarchy(item, where='%s[%s]' % (where, index))",
+                 "if isinstance(prev_item, Partial):\n    prev_item = prev_item.__construct__()"]
+    if not (isinstance(br, ast.If) and ast.unparse(br.test) == "prev_item is not None"
+            and [ast.unparse(x) for x in br.body] == want_some and [ast.unparse(x) for x in br.orelse] == want_none):
+        raise Untranslatable("construction step: %s" % ast.unparse(br)[:120])
+    return "true"
+
+
+TRANSLATOR_TEXT = ("try:\n    if isinstancestructure, dict:\n        structure = {key: self.translate_hierarchyvalue, where='%s.%s' % where, key for key, value in structure.items}\n"
+                   "        if TYPEKEY in structure:\n            return self.constructstructure, **construct_kwargs\n        return structure\n"
+                   "    elif isinstancestructure, list:\n        return listreversed[self.translate_hierarchyitem, where='%s[%s]' % where, index for index, item in reversedlistenumeratestructure]\n"
+                   "    else:\n        return structure\nexcept ConfigurationError as err:\n    if err.where is None:\n        raise ConfigurationErrorwhat=err.what, where=where from err\n    raise\n"
+                   "except Exception as err:\n    raise ConfigurationErrorwhere=where, what=err from err")
+CONSTRUCT_TEXT = ["assert TYPEKEY not in kwargs and ARGSKEY not in kwargs", "mapping = {**mapping, **kwargs}", "factory_fqdn = mapping.popTYPEKEY",
+                  "factory = self.load_namefactory_fqdn", "args = mapping.popARGSKEY, []", "return factory*args, **mapping"]
+
+
+def translator_keys():
+    """config/mapping.py Translator: `translate_hierarchy` and `construct` are, up to layout, the text the model was
+    transcribed from (mapping values in insertion order, then the node itself if it has the type key; list items last
+    to first, result in list order; scalars unchanged; errors get the location of the innermost frame that saw them;
+    construct pops the type key, resolves it, pops the positional-arguments key with default [], calls the factory).
+    Returns the two reserved keys."""
+    from cobald.daemon.config.mapping import Translator
+    th = [_nz(ast.unparse(x)) for x in _fn_body(Translator.translate_hierarchy)]
+    cs = [_nz(ast.unparse(x)) for x in _fn_body(Translator.construct)]
+    import re
+    m = re.match(r"factory_fqdn = mapping\.pop('[^']*')$", cs[2]) if len(cs) == 6 else None
+    a = re.match(r"args = mapping\.pop('[^']*'), \[\]$", cs[4]) if len(cs) == 6 else None
+    if not m or not a:
+        raise Untranslatable("construct: %s" % cs)
+    tk, ak = m.group(1), a.group(1)
+    if cs != [x.replace("TYPEKEY", tk).replace("ARGSKEY", ak) for x in CONSTRUCT_TEXT]:
+        raise Untranslatable("construct differs from the transcribed text: %s" % cs)
+    if th != [TRANSLATOR_TEXT.replace("TYPEKEY", tk)]:
+        raise Untranslatable("translate_hierarchy differs from the transcribed text")
+    return "[%s, %s]" % (tk.replace("'", '"'), ak.replace("'", '"'))
+
+
 def strs_lean(l):
     return "[" + ", ".join('"%s"' % x.replace("\\", "\\\\").replace('"', '\\"') for x in l) + "]"
 
@@ -367,6 +431,8 @@ def render():
     emit("dispatchYaml", "", "List String", lambda: strs_lean(dispatch_table(core_config.load)["yaml"]))
     emit("dispatchPython", "", "List String", lambda: strs_lean(dispatch_table(core_config.load)["python"]))
     emit("daemonStart", "", "List String", daemon_start)
+    emit("pipelineWalkShape", "", "Bool", pipeline_walk)
+    emit("translatorKeys", "", "List String", translator_keys)
     out += ["end Cobald.Gen", ""]
     return "\n".join(out)
 
